@@ -522,7 +522,8 @@ def run_C18(ctx):
                 if tr[2] == 1:
                     rl = d['rules'][tr[1]]
                     key = (tr[0], sname[rl['lhs']] + '-->' + ''.join(' %s ' % sname[x] for x in rl['rhs']))
-                    want_la.setdefault(key, []).append(sorted(sname[x] for x in d['la'].get(str(idx), [])))
+                    # (the listing separates the names of a set by blanks: a blank inside a name, as in the literal ' ', cannot be told from a separator)
+                    want_la.setdefault(key, []).append(sorted(''.join(sname[x].split()) for x in d['la'].get(str(idx), [])))
             if {k: sorted(v) for k, v in la.items()} != {k: sorted(v) for k, v in want_la.items()}:
                 ks = [k for k in set(la) | set(want_la) if sorted(la.get(k, [])) != sorted(want_la.get(k, []))]
                 problems.append('listing, lookahead sets differ from those of the run at %s: listed %s, computed %s' % (ks[:2], [la.get(k) for k in ks[:2]], [want_la.get(k) for k in ks[:2]]))
